@@ -732,6 +732,71 @@ def run(prog, rep, tier):
     if n411 < 25:
         raise CheckerError("R4.11: only %d hour-only rows examined (expected >= 25)" % n411)
 
+    # ------------------------------------------------------------ R4.12 the numeric zone rows of a family agree on what may precede the zone
+    # Rows that read the same notation with `+HHMM`, `+HH:MM` and `+HH` differ in the zone group only.
+    # If one of them demands a blank before the zone where its siblings make it optional, a timestamp
+    # written without the blank in that one notation falls through to the zone-less sibling: the
+    # written offset is dropped and the wall clock is read in --tz-offset.
+    import re as _re412
+    R412 = rep.rule("R4.12", "numeric-zone sibling rows accept the same separator before the zone group")
+    SEP412 = _re412.compile(r"(\[\[:blank:\]\][?*+]?|\[\[:blank:\]\]\{[0-9,]+\})$")
+    fam412 = _col.defaultdict(list)
+    for i, r_ in enumerate(rows):
+        p_ = r_["fields"]["regex_pattern"]
+        k_ = p_.find("(?P<tz>")
+        if k_ < 0:
+            continue
+        pre_ = p_[:k_]
+        m_ = SEP412.search(pre_)
+        sep_ = m_.group(1) if m_ else ""
+        fam412[pre_[:len(pre_) - len(sep_)]].append((i, sep_, r_["fields"]["dtfs"]["fields"]["tz"].get("variant")))
+    n412 = 0
+    for pre_, mem in fam412.items():
+        numeric = [(i, sp) for i, sp, tv in mem if tv in ("z", "zc", "zp")]
+        if len(numeric) < 2:
+            continue
+        n412 += 1
+        seps = sorted({sp for _i, sp in numeric})
+        rep.examined(R412, "family#%d|%s" % (n412, pre_[-40:]), sample={"rows": [i for i, _sp in numeric], "separators_before_zone": seps})
+        if len(seps) > 1:
+            # the odd one out
+            cnt = _col.Counter(sp for _i, sp in numeric)
+            odd = [(i, sp) for i, sp in numeric if cnt[sp] == min(cnt.values())]
+            rep.violation(R412, "family|%s|separator" % pre_[-60:], "DATETIME_PARSE_DATAS[%d] (source line %s) wants %r before its zone group while its numeric-zone siblings want %r: "
+                          "a timestamp written in that one notation %s the blank is not read by it and falls to a sibling that ignores the offset" % (
+                              odd[0][0], rows[odd[0][0]]["fields"].get("_line_num"), odd[0][1], [sp for sp in seps if sp != odd[0][1]][0], "without" if odd[0][1] in ("[[:blank:]]", "[[:blank:]]+") else "with"))
+    if n412 < 20:
+        raise CheckerError("R4.12: only %d families with two or more numeric-zone rows" % n412)
+
+    # ------------------------------------------------------------ R4.13 a tie between notations is decided towards the front of the table
+    # After the first lines of a file the reader keeps the most-used pattern.  The table is ordered from
+    # specific to general (a row with a zone precedes its zone-less sibling), so on a tie the row nearer
+    # the front has to win: the counts live in a BTreeMap keyed by table index and the surplus is removed
+    # from the back.  `Iterator::max_by_key`/`max_by`/`max` return the *last* of equal maxima, `last()`,
+    # `rev()`, `next_back()` and `pop_first()` prefer the back: with them a 1:1 tie between `+05:30` and the
+    # zone-less notation drops the written offset for the whole file.
+    R413 = rep.rule("R4.13", "the most-used-pattern selection never prefers the later table row on a tie")
+    ab_ = prog.body("s4lib::readers::syslinereader::SyslineReader::dt_patterns_analysis")
+    back_pref = []
+    on_counts = 0
+    for fb_ in [ab_] + list(prog.closures_in(ab_.path)):
+        for c in fb_.live_calls():
+            nm_ = (c.o or c.d).split("::")[-1]
+            st_ = (c.callee.get("self") or "")
+            touches = "BTreeMap" in st_ or "btree_map" in st_ or "btree" in c.d
+            if touches:
+                on_counts += 1
+            if "Values" in st_:
+                continue        # the maximum *count* is a value, not a choice between rows
+            if (nm_ in ("max_by_key", "max_by", "max", "last", "rev", "next_back") and ("btree" in st_.lower() or "btree" in str(c.callee.get("ga", "")).lower() or "btree" in c.d.lower())) or (nm_ == "pop_first" and touches):
+                back_pref.append((nm_, c.line))
+    rep.examined(R413, ab_.path + "|tie", sample={"calls_on_the_count_map": on_counts, "back_preferring_selections": back_pref})
+    if on_counts == 0:
+        raise CheckerError("dt_patterns_analysis: no call on the BTreeMap of pattern counts")
+    if back_pref:
+        rep.violation(R413, ab_.path + "|tie|back-preferred", "dt_patterns_analysis (line %d) selects the pattern to keep with %s(), which on equal counts prefers the row nearer the END of the table (the more general one); "
+                      "a short file whose second line lacks the zone its other lines carry is then read with the zone-less pattern and every written offset is ignored" % (back_pref[0][1], back_pref[0][0]))
+
     # ------------------------------------------------------------ R4.8 the --tz-offset value itself (lift of C14 R14.4, R14.8)
     # "A timestamp without zone information is read in the --tz-offset zone": the option's parser is part
     # of this property; its structural rules live in C14 and are lifted here.
